@@ -35,8 +35,23 @@ def run(p, led, tier):
     L = h.loop
     M = {n: p.find_method(L, n) for n in ("_check_circuit", "_record_failure", "_record_success", "reset_circuit_breaker", "run")}
 
+    # the timestamp the recovery timeout is measured from: `<clock> - self.<F>  ≥|>  self.recovery_timeout`
+    cc0 = M["_check_circuit"]
+    cmps0 = [n for n in walk_no_nested(cc0.node) if isinstance(n, ast.Compare) and "recovery_timeout" in src(n)]
+    TS = None
+    if len(cmps0) == 1:
+        for x in ast.walk(cmps0[0]):
+            if isinstance(x, ast.BinOp) and isinstance(x.op, ast.Sub) and is_self_attr(x.right):
+                TS = x.right.attr
+    if TS is None:
+        raise AnchorError("_check_circuit: cannot find the `now - self.<timestamp>` vs recovery_timeout comparison")
+    led.extra["recovery_measured_from"] = TS
+
     def drive(o, mname, state):
         it, obj = h.build(o, "AND", True, False, state)
+        if TS in obj.fields:
+            obj.fields[TS] = Unknown(TS)
+        it.watch_fields.add(("CoherentFeedForwardLoop", TS))
         try:
             r = it.call_fi(M[mname], [obj], {})
         except PyRaise as e:
@@ -45,7 +60,7 @@ def run(p, led, tier):
                     count=obj.fields["_failure_count"], last=obj.fields["_last_failure"], decisions=list(it.decisions))
 
     def elapsed_held(dec):
-        return any(cmp_outcome(d, "_last_failure", "recovery_timeout") in ("ge", "gt") for d in dec)
+        return any(cmp_outcome(d, TS, "recovery_timeout") in ("ge", "gt") for d in dec)
 
     def threshold_held(dec):
         return any(cmp_outcome(d, "_failure_count", "failure_threshold") in ("ge", "gt") for d in dec)
@@ -80,8 +95,11 @@ def run(p, led, tier):
                     inc = [w for w in r["writes"] if w[2] == "_failure_count"]
                     if len(inc) != 1 or "Add 1" not in repr(inc[0][4]):
                         probs.append(f"failure count not incremented by exactly one ({[repr(w[4]) for w in inc]})")
-                    if not any(w[2] == "_last_failure" for w in r["writes"]):
-                        probs.append("last-failure time not rewritten (the recovery timeout is not restarted)")
+                    restarted = any(w[2] == TS and "clock" in repr(w[4]) for w in r["writes"])
+                    if fin == "OPEN" and st != "OPEN" and not restarted:
+                        probs.append(f"breaker (re)opens without `{TS}` being set to the current time: the recovery timeout is not (re)started and the next request is admitted as a probe at once")
+                    if st == "OPEN" and not restarted:
+                        pass   # a failure recorded while already open need not move the window
                     reached = threshold_held(r["decisions"])
                     if st == "CLOSED":
                         if sw and sw != [("CLOSED", "OPEN")]:
@@ -126,11 +144,11 @@ def run(p, led, tier):
         if "recovery_timeout" in src(l):
             l, r = r, l
             op = {ast.Lt: ast.Gt, ast.LtE: ast.GtE, ast.Gt: ast.Lt, ast.GtE: ast.LtE}.get(type(op), type(op))()
-        elapsed_ok = isinstance(l, ast.BinOp) and isinstance(l.op, ast.Sub) and "_last_failure" in src(l.right) and "now" in src(l.left)
+        elapsed_ok = isinstance(l, ast.BinOp) and isinstance(l.op, ast.Sub) and is_self_attr(l.right, TS) and ("now" in src(l.left) or "time" in src(l.left))
         if isinstance(op, (ast.Gt, ast.GtE)) and elapsed_ok:
             led.ok("C08-R1", key, where(cc, c), f"`{short(c)}`: elapsed-since-last-failure ≥|> timeout admits the probe")
         else:
-            led.fail("C08-R1", key, where(cc, c), f"`{short(c)}` does not test 'time since the last failure has reached the recovery timeout'")
+            led.fail("C08-R1", key, where(cc, c), f"`{short(c)}` does not test 'time since the breaker (re)opened has reached the recovery timeout'")
 
     # ---------------- R2 isolation through run()
     runm = M["run"]
